@@ -103,6 +103,7 @@ def check(ctx):
     oracle(ctx)
     tuple_object_probe(ctx)
     limit_shapes_probe(ctx)
+    semi_infinite_limit_probe(ctx)
 
 
 def oracle(ctx):
@@ -398,6 +399,35 @@ def limit_shapes_probe(ctx):
             if not shapes_ok or any(abs(u - w) > 1e-10 for u, w in zip(got + got2, want + want2)):
                 ctx.fail("oracle", "quadgrad:limit-shapes", info, {"first": got, "second": got2, "shapes": [list(t.shape) for t in g]},
                          {"first": want, "second": want2})
+
+
+def semi_infinite_limit_probe(ctx):
+    """one infinite limit, the finite one a tensor requiring grad: the Leibniz boundary term of the finite limit is there, first order
+    and in the mixed second derivative (round-5 seed C13/13: the infinite branch switched both boundary terms off 'because the
+    integrand vanishes at infinity')"""
+    from xitorch.integrate import quad
+    for side in ("upper-infinite", "lower-infinite"):
+        a = torch.tensor(1.3, dtype=DT, requires_grad=True)
+        xf = torch.tensor(0.4, dtype=DT, requires_grad=True)
+        f = lambda x, c: c * torch.exp(-c * x * x) * (1.0 + 0.0 * x)
+        ctx.count(("semi-infinite-limit", side), nontrivial=True)
+        try:
+            with warnings.catch_warnings():
+                warnings.simplefilter("ignore")
+                y = quad(f, xf, float("inf"), params=(a,), n=120) if side == "upper-infinite" else quad(f, -float("inf"), xf, params=(a,), n=120)
+                gx, = torch.autograd.grad(y, xf, create_graph=True, allow_unused=True)
+                gxa = None if gx is None else torch.autograd.grad(gx, a, allow_unused=True)[0]
+        except Exception as e:
+            ctx.fail("oracle", "quadgrad:semi-infinite:exception", {"side": side}, repr(e)[:300], "gradient w.r.t. the finite limit")
+            continue
+        fx = float(f(xf.detach(), a.detach()))
+        sign = -1.0 if side == "upper-infinite" else 1.0
+        dfa = float(torch.exp(-a.detach() * 0.16) * (1 - a.detach() * 0.16))
+        got = None if gx is None else float(gx.detach())
+        got2 = None if gxa is None else float(gxa)
+        if got is None or abs(got - sign * fx) > 1e-12 or got2 is None or abs(got2 - sign * dfa) > 1e-10:
+            ctx.fail("oracle", "quadgrad:semi-infinite:finite-limit", {"side": side, "integrand": "a exp(-a x^2)", "finite_limit": 0.4, "a": 1.3},
+                     {"dy_dx": got, "d2y_dx_da": got2}, {"dy_dx": sign * fx, "d2y_dx_da": sign * dfa})
 
 
 def search(ctx):
